@@ -511,7 +511,7 @@ def configs(tier):
                         'weight': 1, 'engine': {'validate': 0}})
     # (B) for GramacyLee, Synthetic1D and Synthetic2D by solver-driven branch and bound (6 / 68 / 57 cells).  Schubert (product of
     # two sums of five cosines on [-10, 10]^2, 18 global minima) was tried with the same scheme: 2 267 cell queries in 300 s
-    # without closing the cover, so its clause (B) stays undecided.
+    # without closing the cover, so its clause (B) stays undecided; Synthetic5D (10 Gaussians in 5 dimensions): 340 cell queries in 300 s, undecided.
     for name, modk in (('GramacyLee', 'BF'), ('Synthetic1D', 'BR'), ('Synthetic2D', 'BR')):
         out.append({'name': 'BB-' + name, 'task': 'piecewise_bound', 'args': {'name': name, 'mod': modk, 'kwargs': {}},
                     'weight': 8, 'allow_no_reach': False,
